@@ -26,7 +26,7 @@ IO_MUTATING = {"write", "seek", "flush", "close", "truncate", "resize", "writeli
 READONLY = {"tofile", "tobytes", "index", "count", "get", "keys", "items", "values", "read", "getvalue", "fileno",
             "copy", "lower", "upper", "encode", "decode", "digest", "hexdigest", "format", "join", "startswith",
             "endswith", "exists", "expanduser", "resolve", "open", "find", "rfind", "tolist", "bit_length", "strip",
-            "split", "readline", "tell", "is_file", "size", "closed", "unpack", "unpack_from", "pack", "hex", "buffer_info", "fromhex", "isdigit", "replace", "zfill", "rjust", "ljust", "title", "name", "stem", "parent", "with_suffix", "is_dir", "stat", "as_posix"}
+            "split", "readline", "tell", "is_file", "size", "closed", "unpack", "unpack_from", "pack", "hex", "buffer_info", "fromhex", "isdigit", "replace", "zfill", "rjust", "ljust", "title", "name", "stem", "parent", "with_suffix", "is_dir", "stat", "as_posix", "isascii", "isalpha", "isalnum", "isspace", "islower", "isupper", "casefold", "removeprefix", "removesuffix", "to_bytes", "is_integer", "hexdigest"}
 FILE_CTORS = {"open", "BytesIO", "MMap", "mmap"}
 IO_TYPES = {"IOBase", "mmap"}
 BYTES_TYPES = {"bytes", "bytearray", "memoryview"}
@@ -933,7 +933,8 @@ class Walker:
                 return C("str" in names)
         if v[0] == "cmp" and v[1] in ("is", "isnot") and v[3] == NONE:
             x = v[2]
-            nonnull = x[0] in ("new", "newb", "fileobj", "lst", "tup", "struct", "func", "cls", "bm", "pack", "comp", "nary", "bin")
+            nonnull = x[0] in ("new", "newb", "fileobj", "lst", "tup", "struct", "func", "cls", "bm", "pack", "comp", "nary", "bin", "unp", "fstr") \
+                or (x[0] == "c" and x[1] is not None)
             if x == NONE:
                 return C(v[1] == "is")
             if x[0] == "call" and x[1][0] == "g" and x[1][1] in ("int", "float", "str", "bytes", "len", "bool", "list", "tuple", "sorted", "bytearray"):
@@ -1503,7 +1504,7 @@ class Walker:
         if init is None or cls.is_subclass_of("Exception"):
             return [(st, obj)]
         if self.inline == "deep" and len(st.stack) < self.max_depth and init.qualname not in self.no_inline and "__init__" not in self.no_inline \
-                and not (self.opaque is not None and init.qualname in self.opaque):
+                and not (self.opaque is not None and init.qualname in self.opaque and init.qualname not in self.force_inline):
             res = self._inline(init, cls, obj, args, kwargs, st, node, "__init__")
             return [(s, obj) for s, _ in res]
         bound = self._bind_args(init, args, kwargs, skip_self=True)
